@@ -222,7 +222,7 @@ theorem decValue_typed {α : Type} (dc : DataCoder α) (st : DecSt α) (p : Para
       if p.nbits = 0 then
         if p.ty = .bool then R.map (fun v => (v, none)) (readTyped p.ty 0)
         else R.bind (R.lift (secLen st.acc)) fun d =>
-          if d * 8 < st.used then R.fail .other
+          if d * 8 < st.used then R.fail .lib
           else R.map (fun v => (v, none)) (readTyped p.ty (d * 8 - st.used))
       else R.map (fun v => (v, none)) (readTyped p.ty p.nbits) := by
   unfold decValue
